@@ -187,7 +187,15 @@ fn parse_msg(m: &str, d: &Dialect) -> Option<Parsed> {
 
 fn json_text_is(text: &str, want: &Doc) -> bool {
     match serde_json::from_str::<serde_json::Value>(text) {
-        Ok(j) => Doc::from_json(&j).same_unordered(want),
+        Ok(j) => {
+            if Doc::from_json(&j).same_unordered(want) {
+                return true;
+            }
+            // serde_json's default float parser may be one ulp off when reading back a printed
+            // float: fall back to comparing the text with serde_json's own printing of the held
+            // value (members sorted on both sides)
+            serde_json::to_string(&want.to_json()).map(|t| t == text).unwrap_or(false)
+        }
         Err(_) => false,
     }
 }
